@@ -12,6 +12,13 @@ def _c(text, ref):
 
 
 CLAIMS = {
+    "C13": _c("Bounded symbolic model checking of validate() + get_variable_values() + execute_sync() composed: document families "
+              "whose holes are solver-forked indices (12 variable types x 6 defaults x 15 usage positions x 11 runtime values; 15 "
+              "literals x 15 positions; 12 x 13 x 7 selections on 5 kinds of parent). Whenever the real validation and variable "
+              "coercion accept, execution over conforming data (incl. the Int extremes) must report no errors and produce the "
+              "shape the specification oracle predicts; the one run-time case the specification allows is recognised and exempted. "
+              "Plus allowed_variable_usage vs IsVariableUsageAllowed on all wrapper pairs, and attributability of errors with "
+              "corrupted data.", "DESIGN.md section 7, C13"),
     "C06": _c("Bounded symbolic model checking of the real incremental executor / publisher / work queue / stream item queue on a "
               "deterministic event loop with the stop point as a solver variable: no stop, aclose() of the payload stream after "
               "0..3 payloads, abort signal (three kinds of reason) before the 0..5th settlement, source iterator raising at item "
